@@ -35,7 +35,15 @@ parameters of its own functions (setup reads them from the source text: a name s
 keyword that names an attribute must reach the attribute also when it is spelled exactly like a parameter of the function
 it passes through (new, MetaClass.new, the metaclass call, where_eq); the three constructor routes are used in turn.
 
-Domain.  ASCII names; association keys spelled as declared on the
+Family `uni` (names beyond ASCII; D only, model_line returns None: the model matches names as ASCII strings).  Kinds and
+attribute names contain letters beyond ASCII, among them letters whose case mapping is not one-to-one (sharp s -> SS, long s -> S,
+micro sign, final sigma, ligatures, ...).  A spelling counts as the same name in another letter case when its upper-case form AND
+its case-folded form equal those of the declared name (`_same_name`; for ASCII this is the old rule); only such spellings are
+generated and demanded.  (a) exhaustive: every history of writes and deletes of a two-letter name `a<letter>` under (up to four
+of) its spellings, every state read under all spellings; (b) the random histories of family `rand` (a fifth with late
+formalisation) over such names.  D as everywhere: e.g. a value that reads under the upper-case spelling must be deletable under it.
+
+Domain.  Names in the other families are ASCII; association keys spelled as declared on the
 referential side.  Deletes address ANY attribute: one that holds a value (its value goes away), one that holds
 none or a referential one (D: no OTHER attribute may lose or change its value — signature
 delete-absent-removes-other-value); constructor keywords name non-referential and referential attributes in
@@ -66,10 +74,10 @@ RULE = ('(1) exhaustive: every history of length L (quick 3, thorough 4) over th
         'definition are revisited after it) and redefinition attempts under other spellings; in (2) a third of the schemas give the '
         'second class attribute names of the first in another spelling, every write / delete / creation / selection is framed by a '
         'snapshot of all OTHER instances\' dictionaries and of the class dictionaries (must be unchanged), argument lists / dicts '
-        'are checked unchanged and mutated after the call; (4) loaded from text (D only): the same two-class schema with its association and 3-7 rows written as SQL text (named INSERTs with respelled, shuffled, partly omitted columns; matching, dangling and null referential values; uuid and integer spellings of unique_id values), built by xtuml.ModelLoader, then a random history of up to 25 ops as in (2); (5) families (2) and (4) once more with about half of the attribute names taken from the parameter names of the functions of the library itself (read with ast from the source text of the tree under test; preferred: the parameters, *args / **kwargs names and identifier-like string constants of the functions that take attribute names as keywords - new, the metaclass call, where_eq), declared as they are or in another letter case, a third of their uses (constructor keywords, where_eq items, reads, writes, deletes, INSERT columns) spelled EXACTLY like the parameter, the instances created in turn through MetaModel.new, MetaClass.new and the metaclass call; non-trivial = some cell was written under two '
+        'are checked unchanged and mutated after the call; (4) loaded from text (D only): the same two-class schema with its association and 3-7 rows written as SQL text (named INSERTs with respelled, shuffled, partly omitted columns; matching, dangling and null referential values; uuid and integer spellings of unique_id values), built by xtuml.ModelLoader, then a random history of up to 25 ops as in (2); (5) families (2) and (4) once more with about half of the attribute names taken from the parameter names of the functions of the library itself (read with ast from the source text of the tree under test; preferred: the parameters, *args / **kwargs names and identifier-like string constants of the functions that take attribute names as keywords - new, the metaclass call, where_eq), declared as they are or in another letter case, a third of their uses (constructor keywords, where_eq items, reads, writes, deletes, INSERT columns) spelled EXACTLY like the parameter, the instances created in turn through MetaModel.new, MetaClass.new and the metaclass call; (6) names beyond ASCII (D only): kinds and attribute names with letters outside ASCII, about half of them letters whose case mapping is not one-to-one (sharp s, long s, micro sign, final sigma, fi / fl ligatures, n with apostrophe, j with caron, beta symbol, dz digraph, capital sharp s), every use spelled in another letter case of the same name (same upper-case form and same case-folded form: Mass written MASS, maSS, mA\u00df ...): exhaustively every history of length L over {write, delete} x up to 4 spellings of a two-letter name a<letter> for each of 13 letters, every state read under all spellings, the kind K<letter> created under its upper-case form, plus random histories as in (2) (a fifth with the association formalised late) over such names; non-trivial = some cell was written under two '
         'different spellings and read under yet another; distinct = distinct op sequence')
 EXHAUSTIVE = {'quick': True, 'thorough': True}
-ASSUMPTIONS = ['names are ASCII identifiers (str.upper on ASCII); association keys on the referential side are spelled as '
+ASSUMPTIONS = ['names are ASCII identifiers (str.upper on ASCII) in all families but `names beyond ASCII`; there a spelling is in the domain (the same name in another letter case) when both its str.upper form and its str.casefold form equal those of the declared name - spellings on which the two disagree (dotless i, capital I with dot, lower-case form of the capital sharp s) are neither generated nor demanded, and that family has no model counterpart (D only); association keys on the referential side are spelled as '
                'declared; a class whose attribute names coincide apart from letter case cannot exist: define_class '
                'rejects it (generated and checked: MetaModelException, nothing defined; the attribute list is handed to define_class '
                'as list, tuple, zip, generator, iterator, map or dict items view in turn); likewise an attribute name of the '
